@@ -7,6 +7,15 @@
 // with what C06 needs and cycle.Cluster cannot express: a queue tree with
 // several top-level queues, min-runtime settings per queue, the plugin's default
 // min-runtimes and resolve method, explicit preemptibility, start times).
+//
+// Fault injection (the idea of cycle.Cluster.FailBinds / FailEvicts): the recording
+// cache refuses chosen Cache.Evict / Cache.Bind calls - by index over the cycle, or by
+// position inside every commit (a run of consecutive Evict calls with one action and
+// preemptor).  A refused call is recorded as refused (kinds evictfail / bindfail): it
+// did not reach the cluster.  After an action in which a Bind was refused, the pods the
+// session still holds as Allocated (their allocate operations were dropped by
+// Statement.Commit, neither committed nor undone) are recorded as "orphan" entries.
+// Emit also reads the status and node of every pod from the session after the cycle.
 package c06
 
 import (
@@ -80,17 +89,45 @@ type Cluster struct {
 	Actions                  []string
 	DefPreemptH, DefReclaimH int    // plugin arguments defaultPreemptMinRuntime / defaultReclaimMinRuntime (hours)
 	Method                   string // reclaimResolveMethod: "", "lca", "queue"
+	// fault injection (as harness/internal/cycle): the recording cache makes these calls
+	// return an error; a refused call does not reach the cluster.
+	FailBinds  []int // indices (0-based, over the whole cycle) of the Cache.Bind calls that fail
+	FailEvicts []int // indices (0-based, over the whole cycle) of the Cache.Evict calls that fail
+	FailInRun  []int // positions inside EVERY run of consecutive Evict calls with one action and preemptor (= one commit) that fail
 }
 
+func (c Cluster) Faulty() bool { return len(c.FailBinds)+len(c.FailEvicts)+len(c.FailInRun) > 0 }
+
+// Call kinds: bind | evict | pipe (accepted), bindfail | evictfail (the call returned an
+// error), orphan (no call: a pod the session still holds as Allocated after a refused
+// Bind ended its statement's commit).
 type Call = cycle.Call
 
 type recorder struct {
 	cache.Cache
-	calls []Call
+	calls       []Call
+	nbind       int
+	nevict      int
+	runPos      int    // position of the next Evict call inside the current run
+	runKey      string // action + preemptor of the current run; "" = the last call was not an Evict
+	FailBind    map[int]bool
+	FailEvict   map[int]bool
+	FailInRun   map[int]bool
+	bindRefused bool // a Bind was refused since the flag was last cleared
 }
 
 func (r *recorder) Bind(p *pod_info.PodInfo, hostname string, ann map[string]string) error {
-	r.calls = append(r.calls, Call{Kind: "bind", Pod: p.Name, Node: hostname, Groups: append([]string{}, p.GPUGroups...)})
+	k := r.nbind
+	r.nbind++
+	r.runKey = ""
+	c := Call{Kind: "bind", Pod: p.Name, Node: hostname, Groups: append([]string{}, p.GPUGroups...)}
+	if r.FailBind[k] {
+		c.Kind = "bindfail"
+		r.calls = append(r.calls, c)
+		r.bindRefused = true
+		return fmt.Errorf("injected bind failure #%d", k)
+	}
+	r.calls = append(r.calls, c)
 	return nil
 }
 
@@ -99,11 +136,26 @@ func (r *recorder) Evict(pod *v1.Pod, job *podgroup_info.PodGroupInfo, md evicti
 	if md.Preemptor != nil {
 		c.Preemptor = md.Preemptor.Name
 	}
+	k := r.nevict
+	r.nevict++
+	key := c.Action + "\x00" + c.Preemptor
+	if key != r.runKey {
+		r.runKey, r.runPos = key, 0
+	}
+	pos := r.runPos
+	r.runPos++
+	if r.FailEvict[k] || (actionCode(c.Action) != 0 && r.FailInRun[pos]) {
+		c.Kind = "evictfail"
+		r.calls = append(r.calls, c)
+		// the text of SchedulerCache.Evict for a pod that finished between snapshot and commit
+		return fmt.Errorf("received an eviction attempt for a terminated task: %s/%s (injected #%d)", pod.Namespace, pod.Name, k)
+	}
 	r.calls = append(r.calls, c)
 	return nil
 }
 
 func (r *recorder) TaskPipelined(t *pod_info.PodInfo, msg string) {
+	r.runKey = ""
 	r.calls = append(r.calls, Call{Kind: "pipe", Pod: t.Name, Node: t.NodeName, Groups: append([]string{}, t.GPUGroups...)})
 }
 
@@ -240,7 +292,16 @@ func Build(c Cluster) *Built {
 		}
 	}
 	b.Ssn = newSession(b.Nodes, b.Jobs, queues, cpai, tiers)
-	b.Rec = &recorder{Cache: b.Ssn.Cache}
+	b.Rec = &recorder{Cache: b.Ssn.Cache, FailBind: map[int]bool{}, FailEvict: map[int]bool{}, FailInRun: map[int]bool{}}
+	for _, k := range c.FailBinds {
+		b.Rec.FailBind[k] = true
+	}
+	for _, k := range c.FailEvicts {
+		b.Rec.FailEvict[k] = true
+	}
+	for _, k := range c.FailInRun {
+		b.Rec.FailInRun[k] = true
+	}
 	b.Ssn.Cache = b.Rec
 	return b
 }
@@ -309,14 +370,46 @@ func RunActions(b *Built, names []string) (panicked string) {
 			panicked = fmt.Sprintf("%v\n%s", r, debug.Stack())
 		}
 	}()
+	orphaned := map[string]bool{}
 	for _, a := range names {
 		act, ok := framework.GetAction(a)
 		if !ok {
 			panic("unknown action " + a)
 		}
 		act.Execute(b.Ssn)
+		if b.Rec.bindRefused {
+			// Statement.Commit returns at a refused Bind: the allocate operations behind it were never
+			// committed nor undone - their pods stay Allocated on their nodes in the session
+			b.Rec.bindRefused = false
+			var names []string
+			for _, t := range b.sessionTasks() {
+				if t.Status == pod_status.Allocated && !orphaned[t.Name] {
+					names = append(names, t.Name)
+				}
+			}
+			sort.Strings(names)
+			st := b.sessionTasks()
+			for _, n := range names {
+				orphaned[n] = true
+				t := st[n]
+				b.Rec.calls = append(b.Rec.calls, Call{Kind: "orphan", Pod: t.Name, Node: t.NodeName, Groups: append([]string{}, t.GPUGroups...)})
+			}
+			b.Rec.runKey = ""
+		}
 	}
 	return ""
+}
+
+// sessionTasks: the pods as the session holds them now (after a commit a job's pod map can hold
+// the operation's clone of a task, so the pointers of Build are not used).
+func (b *Built) sessionTasks() map[string]*pod_info.PodInfo {
+	out := map[string]*pod_info.PodInfo{}
+	for _, j := range b.Ssn.ClusterInfo.PodGroupInfos {
+		for _, t := range j.GetAllPodsMap() {
+			out[t.Name] = t
+		}
+	}
+	return out
 }
 
 // ---- projection (as cycle.Emit) ------------------------------------------------
@@ -365,13 +458,15 @@ func actionCode(a string) int {
 
 // Result of one real cycle.
 type Result struct {
-	CC    string // Coq term of type ccase
-	Extra string // Coq term of type c06env (queue tree, min-runtime settings, start ages)
-	Calls []Call
-	Desc  string // human-readable calls
-	Stats map[string]int
-	Ids   *core.Ids
-	B     *Built
+	CC     string // Coq term of type ccase
+	Extra  string // Coq term of type c06env (queue tree, min-runtime settings, start ages)
+	FCalls string // Coq term: list fcall (every call with its outcome, and the pods left Allocated by a refused Bind)
+	Final  string // Coq term: status and node of every pod in the real session after the cycle
+	Calls  []Call
+	Desc   string // human-readable calls
+	Stats  map[string]int
+	Ids    *core.Ids
+	B      *Built
 }
 
 func hterm(h int) string {
@@ -463,27 +558,52 @@ func Emit(c Cluster) Result {
 		st["PANIC"]++
 		fmt.Fprintf(os.Stderr, "PANIC in actions: %s\n  cluster: %s\n", pmsg, Describe(c))
 	}
-	var calls []string
+	var calls, fcalls []string
 	var cdesc []string
+	add := func(ok bool, term string) {
+		if ok {
+			calls = append(calls, term)
+		}
+		fcalls = append(fcalls, fmt.Sprintf("(FC %s %s)", u.Bool(ok), term))
+	}
 	for _, cl := range b.Rec.calls {
 		switch cl.Kind {
-		case "bind":
-			calls = append(calls, fmt.Sprintf("(CBind %s %s %s)", u.Pos(ids.Of("p:"+cl.Pod)), u.Pos(ids.Of("n:"+cl.Node)), core.Groups(ids, cl.Groups)))
-			cdesc = append(cdesc, fmt.Sprintf("bind(%s->%s%v)", cl.Pod, cl.Node, cl.Groups))
+		case "bind", "bindfail":
+			add(cl.Kind == "bind", fmt.Sprintf("(CBind %s %s %s)", u.Pos(ids.Of("p:"+cl.Pod)), u.Pos(ids.Of("n:"+cl.Node)), core.Groups(ids, cl.Groups)))
+			cdesc = append(cdesc, fmt.Sprintf("%s(%s->%s%v)", map[bool]string{true: "bind", false: "bindFAILED"}[cl.Kind == "bind"], cl.Pod, cl.Node, cl.Groups))
 		case "pipe":
-			calls = append(calls, fmt.Sprintf("(CPipe %s %s %s)", u.Pos(ids.Of("p:"+cl.Pod)), u.Pos(ids.Of("n:"+cl.Node)), core.Groups(ids, cl.Groups)))
+			add(true, fmt.Sprintf("(CPipe %s %s %s)", u.Pos(ids.Of("p:"+cl.Pod)), u.Pos(ids.Of("n:"+cl.Node)), core.Groups(ids, cl.Groups)))
 			cdesc = append(cdesc, fmt.Sprintf("pipe(%s->%s%v)", cl.Pod, cl.Node, cl.Groups))
-		case "evict":
+		case "evict", "evictfail":
 			pre := "None"
 			if cl.Preemptor != "" {
 				pre = u.Opt(true, u.Pos(ids.Of("j:"+cl.Preemptor)))
 			}
-			calls = append(calls, fmt.Sprintf("(CEvict %s %s %s)", u.Pos(ids.Of("p:"+cl.Pod)), u.Nat(actionCode(cl.Action)), pre))
-			cdesc = append(cdesc, fmt.Sprintf("evict(%s,%s)", cl.Pod, cl.Action))
+			add(cl.Kind == "evict", fmt.Sprintf("(CEvict %s %s %s)", u.Pos(ids.Of("p:"+cl.Pod)), u.Nat(actionCode(cl.Action)), pre))
+			cdesc = append(cdesc, fmt.Sprintf("%s(%s,%s)", map[bool]string{true: "evict", false: "evictFAILED"}[cl.Kind == "evict"], cl.Pod, cl.Action))
+		case "orphan":
+			fcalls = append(fcalls, fmt.Sprintf("(FOrphan %s %s %s)", u.Pos(ids.Of("p:"+cl.Pod)), u.Pos(ids.Of("n:"+cl.Node)), core.Groups(ids, cl.Groups)))
+			cdesc = append(cdesc, fmt.Sprintf("leftAllocated(%s@%s)", cl.Pod, cl.Node))
 		}
 		st["call:"+cl.Kind]++
 		if cl.Kind == "evict" {
 			st["evict:"+strings.ToLower(cl.Action)]++
+		}
+	}
+	// statuses and nodes in the real session after the cycle
+	var fin []string
+	stasks := b.sessionTasks()
+	for _, j := range c.Jobs {
+		for _, p := range j.Pods {
+			t, ok := stasks[p.Name]
+			if !ok {
+				continue
+			}
+			node := "None"
+			if _, ok := b.Nodes[t.NodeName]; ok {
+				node = u.Opt(true, u.Pos(ids.Of("n:"+t.NodeName)))
+			}
+			fin = append(fin, u.Tuple(u.Pos(ids.Of("p:"+p.Name)), core.StatusTerm(t.Status), node))
 		}
 	}
 	final := map[int]string{}
@@ -498,6 +618,7 @@ func Emit(c Cluster) Result {
 		CC: fmt.Sprintf("(mkCC %s %s %s %s %s)", sortedAmap(nodes0), u.List(tis), u.List(jis), u.List(calls), sortedAmap(final)),
 		Extra: fmt.Sprintf("(mkEnv %s %s %s %s %s)", u.List(qs), u.Z(int64(c.DefPreemptH)*3600), u.Z(int64(c.DefReclaimH)*3600),
 			u.Bool(lca), u.List(starts)),
+		FCalls: u.List(fcalls), Final: u.List(fin),
 		Calls: b.Rec.calls, Desc: strings.Join(cdesc, " "), Stats: st, Ids: ids, B: b,
 	}
 }
@@ -571,5 +692,8 @@ func Describe(c Cluster) string {
 		sb.WriteString(")")
 	}
 	fmt.Fprintf(&sb, "] actions%v", c.Actions)
+	if c.Faulty() {
+		fmt.Fprintf(&sb, " faults[failEvict#%v failEvictAtCommitPos%v failBind#%v]", c.FailEvicts, c.FailInRun, c.FailBinds)
+	}
 	return sb.String()
 }
